@@ -15,12 +15,34 @@ pub struct Shrunk {
     pub from_faults: usize,
 }
 
-fn still_fails(p: &Plan, class: &str) -> Option<(Vec<u8>, u64, Violation)> {
+fn fails_once(p: &Plan, class: &str) -> Option<(Vec<u8>, u64, Violation)> {
     let r = run_plan(p, false);
     match r.violation {
         Some(v) if v.class == class => Some((r.schedule, r.fingerprint, v)),
         _ => None,
     }
+}
+
+/// Does the candidate still violate with the same class? Tried with its own
+/// (recorded) schedule first, then with the simplest schedules there are:
+/// fully sequential, and "thread k first, then the others in order".
+fn still_fails(p: &Plan, class: &str) -> Option<(Vec<u8>, u64, Violation)> {
+    if let Some(x) = fails_once(p, class) {
+        return Some(x);
+    }
+    if p.threads.len() > 1 && (p.prop == "C20" || p.prop == "C03") {
+        for k in 0..p.threads.len() {
+            let mut q = p.clone();
+            q.schedule = Some(vec![k as u8]);
+            if p.schedule.as_deref() == Some(&[k as u8][..]) {
+                continue;
+            }
+            if let Some(x) = fails_once(&q, class) {
+                return Some(x);
+            }
+        }
+    }
+    None
 }
 
 fn drop_thread(p: &Plan, k: usize) -> Plan {
